@@ -199,6 +199,9 @@ def check_grid(repo: Repo, rep: Report) -> None:
 def run(repo: Repo, rep: Report) -> None:
     check_encoding(repo, rep)
     check_grid(repo, rep)
+    from .encodings import standard_history
+    standard_history(repo, rep, "active_vertices_connected", "vertices")
+    standard_history(repo, rep, "active_vertices_connected", "vertices", {"acyclic": True})
     c20.check_gating(repo, rep)
     graphnative.check_native_layout(repo, rep)
     rep.assume("the reference schema of the rank/root encoding (sa/rules/c04.py) is exact for every graph: argument in DESIGN.md C04; "
